@@ -108,6 +108,33 @@ async fn verif_enum_shwap_multihasher() {
             }}
         }
     }
+    // fabricated row namespace data: a share of a namespace that is NOT in the row (outside or inside the row root's
+    // range), "proven" by an absence proof / an empty presence proof with garbage - never committed to by the DAH
+    for (tag, ns_bytes) in [("below", [0u8; 10]), ("above", [0xFEu8; 10])] {
+        let Ok(forged_ns) = Namespace::new_v0(&ns_bytes[..if tag == "below" { 1 } else { 10 }]) else { continue };
+        for rr in 0..w / 2 { for absence in [true, false] { for nodes in [0usize, 1] {
+            let mut share = vec![0xEEu8; celestia_types::consts::appconsts::SHARE_SIZE];
+            share[..celestia_types::nmt::NS_SIZE].copy_from_slice(forged_ns.as_bytes());
+            share[celestia_types::nmt::NS_SIZE] = 0;
+            let raw = celestia_proto::shwap::RowNamespaceData {
+                shares: vec![celestia_proto::shwap::Share { data: share }],
+                proof: Some(celestia_proto::proof::pb::Proof {
+                    start: 0, end: if absence { 0 } else { 1 },
+                    nodes: vec![vec![0xAB; 2 * celestia_types::nmt::NS_SIZE + 32]; nodes],
+                    leaf_hash: if absence { vec![0xAA; 2 * celestia_types::nmt::NS_SIZE + 32] } else { vec![] },
+                    is_max_namespace_ignored: true,
+                }),
+            };
+            let Ok(id) = RowNamespaceDataId::new(forged_ns, rr, 1) else { continue };
+            let cid = convert_cid(&id.into()).unwrap();
+            cases += 1;
+            match hash_catch(&hasher, ROW_NAMESPACE_DATA_ID_MULTIHASH_CODE, &block_bytes(&cid, &raw.encode_to_vec())).await {
+                Ok(Ok(_)) => { println!("WITNESS C10: a fabricated share of a namespace {tag} row {rr}'s range with a garbage {} proof ({nodes} nodes) was accepted as row namespace data of block 1", if absence { "absence" } else { "presence" }); panic!("witness"); }
+                Ok(Err(_)) => {}
+                Err(msg) => { on_panic(&mut nmt_panic_seen, format!("fabricated row namespace data ({tag}, row {rr})"), &msg); }
+            }
+        }}}
+    }
     if hasher.hash(0x1234, &[]).await.is_ok() { println!("WITNESS C10: unknown multihash code accepted"); panic!("witness"); }
     println!("ENUM-OK cases={cases}");
 }
